@@ -101,7 +101,15 @@ def w_c06(seed, want_c02=False):
                 text = "\n%%\n".join(PRE + [bad] + PROBES)
                 return {"found": True, "kind": "session", "what": f"after failing input ({name}) probe `{PROBES[i]}` gives {got.get(i + 1)} instead of {base.get(i)}",
                         "input": text, "output": raw[:2000], "cmd": f"{BIN} session", "stdin": text}
-    return {"found": False, "note": f"{len(FAILING)} failing inputs x {len(PROBES)} probes: session behaves as if the failing input had not been submitted"}
+    if not want_c02:
+        # on-demand loading of the currency module: the first attempt at the input fails internally (unknown identifier), is rolled
+        # back, the module is loaded and the input is evaluated again - the outcome must be that of a session that had the module
+        for seq in ([("unit vx_cur\n2 USD", "2 $"), ("vx_cur", "1 vx_cur")], [("dimension VxDim\n2 USD", "2 $"), ("unit vx_d: VxDim\nvx_d", "1 vx_d")],
+                    [("struct VxS { a: Scalar }\n1 GBP", "1 £"), ("VxS { a: 1 }.a", "1")], [("use extra::astronomy\n2 USD", "2 $"), ("lunar_radius -> km", "1737.4 km")]):
+            r = _sequence(seq, "on-demand currency loading", "")
+            if r.get("found"):
+                return r
+    return {"found": False, "note": f"{len(FAILING)} failing inputs x {len(PROBES)} probes: session behaves as if the failing input had not been submitted; 4 inputs that trigger on-demand currency loading behave like inputs of a session that had the module"}
 
 
 # ---------------------------------------------------------------- C11 / C12
@@ -160,6 +168,11 @@ def w_c12(seed):
             a, b = f"({rnd.choice(MAGS[:11])} {u})", f"({rnd.choice(MAGS[:11])} {v})"
             inputs.append(f"\"{{{a} + {b}}} | {{{b} + {a}}} | {{{a} - {b}}} | {{-({b} - {a})}}\"")
             meta.append((a, b))
+    # compound units whose sizes differ only through fractional or negative exponents
+    for a, b in [("sqrt(4 km)", "sqrt(9 m)"), ("cbrt(8 L)", "cbrt(27 mL)"), ("(3 V / sqrt(1 Hz))", "(5 mV / sqrt(1 Hz))"), ("(2 / km)", "(3 / m)"), ("(1 / sqrt(4 s))", "(1 / sqrt(9 ms))"),
+                 ("(2 m^2 / s)", "(3 cm^2 / s)"), ("(1 kg / m^3)", "(1 g / cm^3)"), ("(3 km/h)", "(2 m/s)"), ("(2 N m)", "(3 N cm)")]:
+        inputs.append(f"\"{{{a} + {b}}} | {{{b} + {a}}} | {{{a} - {b}}} | {{-({b} - {a})}}\"")
+        meta.append((a, b))
     got, raw = session(inputs)
     for i, (a, b) in enumerate(meta):
         r = got.get(i, [])
